@@ -24,29 +24,37 @@ def run(ctx):
                        "expression has at least one operator; distinct = distinct texts. Abstract grammars pest itself rejects (decided on a canonical "
                        "spelling) are skipped." % maxsize)
 
+    vhx = cargo_build(features="extras", variant="extras")
+
     def one(sh):
-        cfgname = "MC_ReaderGen_%d_run.cfg" % sh
+        # shard -1: the constructs of grammar-extras (MaxSize = 0 in MC_ReaderGen), read by the build with the feature on
+        extras = sh < 0
+        cfgname = "MC_ReaderGen_%s_run.cfg" % ("x" if extras else str(sh))
         with open(os.path.join(SPEC, cfgname), "w") as f:
-            f.write("SPECIFICATION Spec\nCONSTANTS\n  MaxSize = %d\n  Shard = %d\n  NShards = %d\nINVARIANT Emit\nCHECK_DEADLOCK FALSE\n" % (maxsize, sh, nsh))
+            f.write("SPECIFICATION Spec\nCONSTANTS\n  MaxSize = %d\n  Shard = %d\n  NShards = %d\nINVARIANT Emit\nCHECK_DEADLOCK FALSE\n"
+                    % ((0, 0, 1) if extras else (maxsize, sh, nsh)))
         try:
-            r = tlc("MC_ReaderGen", cfg=cfgname, workdir=ctx.work, outname="rgen_%d.out" % sh, workers=1, timeout=6000, xmx="3g")
+            r = tlc("MC_ReaderGen", cfg=cfgname, workdir=ctx.work, outname="rgen_%s.out" % ("x" if extras else str(sh)), workers=1, timeout=6000, xmx="3g")
         finally:
             os.remove(os.path.join(SPEC, cfgname))
         if not r.ok:
             raise ToolError("MC_ReaderGen shard %d: %s" % (sh, r.violated))
-        cases = os.path.join(ctx.work, "r_cases_%d.ndjson" % sh)
+        cases = os.path.join(ctx.work, "r_cases_%s.ndjson" % ("x" if extras else str(sh)))
         printed_json(r.out, cases)
         os.remove(r.out)
-        rep = run_json([vh, "reader-replay", "--cases", cases], timeout=6000)
+        rep = run_json([vhx if extras else vh, "reader-replay", "--cases", cases], timeout=6000)
         sample = read_ndjson(cases, 50)[-1]
         os.remove(cases)
         return r, rep, sample
     with ThreadPoolExecutor(max_workers=12) as ex:
-        rs = list(ex.map(one, range(nsh)))
+        rs = list(ex.map(one, [-1] + list(range(nsh))))
     texts = skipped = 0
     why = {}
     per_cause = {}
-    for (r, rep, sample) in rs:
+    for (ri, (r, rep, sample)) in enumerate(rs):
+        if ri == 0:
+            ctx.cov["engines"].append({"name": "MC_ReaderGen, grammar-extras constructs on the grammar-extras build", "role": "PUSH_LITERAL and node tags spelled and read back",
+                                       "texts_read_back": rep["texts"], "skipped": rep["skipped_not_accepted_by_pest"]})
         ctx.cov["states"] += r.distinct
         ctx.cov["transitions"] += r.generated
         texts += rep["texts"]
@@ -56,6 +64,8 @@ def run(ctx):
         for m in rep["mismatches"]:
             d = {"kind": "replay", "spec": "MetaSyntax", "text": m["text"], "text_code_points": m["text_code_points"], "style": m["style"],
                  "written": m["written"], "read": m["read"]}
+            if ri == 0:
+                d["features"] = "grammar-extras"
             # cause attribution for known findings: a `|` directly after an opening parenthesis
             if m["style"].get("leadin") and isinstance(m["read"], dict) and "error" in m["read"] and "panic" in str(m["read"]["error"]):
                 d["cause"] = "leading choice operator inside parentheses panics"
@@ -84,13 +94,13 @@ def run(ctx):
     ctx.cov["traces_validated_against_impl"] = s["respellings"]
     ctx.cov["evaluations"] = texts + s["respellings"]
     ctx.cov["distinct_nontrivial"] = texts
-    ctx.assumptions += ["node tags and PUSH_LITERAL (grammar-extras) are not spelled in this round",
+    ctx.assumptions += ["node tags and PUSH_LITERAL (grammar-extras) are spelled in a family of their own and read by the build with the feature on",
                         "repetition counts are limited to what fits TLC's 32-bit integers (2147483647 stands for the u32 range)"]
 
 
 def replay(ctx, path):
-    vh = cargo_build()
     body = json.load(open(path))
+    vh = cargo_build(features="extras", variant="extras") if body.get("features") == "grammar-extras" else cargo_build()
     cf = os.path.join(ctx.work, "c.ndjson")
     if "text_code_points" not in body:
         print("replay of re-spellings: re-run the check"); return 2
